@@ -703,7 +703,9 @@ def run(ctx):
         # writer: the single-unit test compares the data length with the sector size
         wmin = None
         for l in hirq.find(wf.hir["body"], "let"):
-            if l["pat"].get("k") == "bind" and re.search(r"single_unit", l["pat"]["name"]) and l.get("init") is not None:
+            # (the local is recognised by what it holds — one comparison of the data length with the sector size — not by its name)
+            if l["pat"].get("k") == "bind" and l.get("init") is not None and hirq.strip(l["init"]).get("k") == "bin" and hirq.strip(l["init"])["op"] in ("<", "<=", ">", ">=") \
+                    and ".len()" in hirq.render(l["init"]) and "sector_size" in hirq.render(l["init"]) and wmin is None:
                 c_ = hirq.strip(l["init"])
                 ats = _ce.atoms(c_) if c_.get("k") == "bin" else []
                 dl = next((a for a in ats if ".len()" in a), None)
